@@ -10,7 +10,7 @@ mod fmt;
 mod rms_driver;
 
 use hx_common::*;
-use rms_driver::rms_direct;
+use rms_driver::rms_direct_any;
 
 #[global_allocator]
 static A: CountingAlloc = CountingAlloc;
@@ -32,7 +32,7 @@ fn main() {
                     return;
                 }
                 let ch = cfg["ch"].as_u64().unwrap();
-                rms_dispatch!(rms_direct, fmt.as_str(), ch, (out, &ex[0], &ex[1..], "no_std"))
+                rms_dispatch!(rms_direct_any, fmt.as_str(), ch, (out, &ex[0], &ex[1..], "no_std"))
             });
             eprintln!("hx_rms_nostd: {} events", n);
         }
